@@ -788,6 +788,35 @@ Definition DupAcrossAttrs (ns : list tree) : bool :=
 Definition NestedEmptyList (ns : list tree) : bool :=
   existsb (fun t => negb (no_empty_kid t)) ns.
 
+(* the flattened trees that take part in merging (imports.rs:229-234) *)
+Definition flat_list (ns : list tree) : list tree :=
+  flat_map (fun t => if contains_comment t || is_some (attrs t) then [] else flatten false t) ns.
+(* the position at which two paths first differ, when the two segments there
+   are equal except for their alias *)
+Definition alias_div (f1 f2 : tree) : option nat :=
+  let n := prefix_len false (path f1) (path f2) in
+  match nth_error (path f1) n, nth_error (path f2) n with
+  | Some x, Some y => if eea x y then Some n else None
+  | _, _ => None
+  end.
+Definition pair_exists (P : tree -> tree -> bool) (l : list tree) : bool :=
+  existsb (fun x => existsb (P x) l) l.
+(* DupModuloRootAlias: use a as _; use a; *)
+Definition DupModuloRootAlias (ns : list tree) : bool :=
+  pair_exists (fun x y => same_visibility x y && Nat.eqb (path_len x) 1 && Nat.eqb (path_len y) 1
+                          && match alias_div x y with Some 0 => true | _ => false end)
+              (flat_list ns).
+(* AliasedPrefixOne: use a::BAR; use a as q; *)
+Definition AliasedPrefixOne (ns : list tree) : bool :=
+  pair_exists (fun x y => same_visibility x y && Nat.ltb 1 (path_len x) && Nat.eqb (path_len y) 1
+                          && match alias_div x y with Some 0 => true | _ => false end)
+              (flat_list ns).
+(* DupModuloAliasNested: use a::{c, x}; use a::c as z; *)
+Definition DupModuloAliasNested (ns : list tree) : bool :=
+  pair_exists (fun x y => same_visibility x y
+                          && match alias_div x y with Some (S _) => true | _ => false end)
+              (flat_list ns).
+
 Section Bad.
 Variable cmp : tree -> tree -> comparison.
 (* AliasClash g = alias_clash for the SharedPrefix of g: during merging two
@@ -804,6 +833,59 @@ Definition BadClass (g : granularity) (ts : list tree) : bool :=
   | One => NestedEmptyList ns || alias_clash cmp SPOne ns
   end.
 End Bad.
+
+(* ------------------------------------------------------------------ *)
+(* vocabulary of the statements *)
+Definition kids_wf (t : tree) : bool :=
+  match kids t with None => true | Some l => forallb wf_kid l end.
+(* what merge needs of its operands: no nested item with an empty path, aliases
+   only on last segments; [good] = shape and a non-empty path *)
+Definition shape (t : tree) : bool := no_empty_kid t && alias_last t.
+Definition good (t : tree) : bool := negb (path_is_empty t) && shape t.
+(* the class of a top-level tree: visibility and attributes *)
+Definition cls (t : tree) : N * option N := (vnorm (vis t), attrs t).
+(* imports.rs:229: trees that normalize_use_trees_with_granularity pushes unchanged *)
+Definition passthrough (t : tree) : bool := contains_comment t || is_some (attrs t).
+
+(* the comparator instance used by Run.v and by the witnesses: style edition
+   <= 2021 with ASCII char::is_uppercase / char::is_numeric *)
+Definition ascii_upper (c : char) : bool := (N.leb 65 c) && (N.leb c 90).
+Definition ascii_numeric (c : char) : bool := (N.leb 48 c) && (N.leb c 57).
+Definition cmp15 : tree -> tree -> comparison := tree_cmp ascii_upper ascii_numeric.
+
+(* ------------------------------------------------------------------ *)
+(* reorder.rs:284-353 visit_items_with_reordering / walk_reorderable_or_regroupable_items,
+   when `use` items are reorderable or regroupable: the items of a module are
+   cut into maximal runs of consecutive `use` items (take_while same kind; with
+   in_group = (group_imports == Preserve) a run also ends before a `use` that a
+   blank line separates from the previous one: flag brk), each run is rewritten
+   by [pipeline], every other item stays where it is.  [seg] is the while loop
+   with take_while, as one pass with the current run as accumulator. *)
+Inductive item := IUse (brk : bool) (t : tree) | IOther (id : N).
+Definition flush (cur : option (list tree)) : list (list tree + N) :=
+  match cur with Some r => [inl r] | None => [] end.
+Fixpoint seg (in_group : bool) (cur : option (list tree)) (items : list item)
+  : list (list tree + N) :=
+  match items with
+  | [] => flush cur
+  | IOther id :: r => flush cur ++ inr id :: seg in_group None r
+  | IUse brk t :: r =>
+      match cur with
+      | None => seg in_group (Some [t]) r
+      | Some run => if in_group && brk then inl run :: seg in_group (Some [t]) r
+                    else seg in_group (Some (run ++ [t])) r
+      end
+  end.
+Definition visit_items (cmp : tree -> tree -> comparison) (g : granularity)
+           (grp reorder in_group : bool) (items : list item) : list (list (list tree) + N) :=
+  map (fun s => match s with
+                | inl run => inl (pipeline cmp g grp reorder run)
+                | inr id => inr id
+                end) (seg in_group None items).
+Definition strip (i : item) : tree + N :=
+  match i with IUse _ t => inl t | IOther id => inr id end.
+Definition unseg (l : list (list tree + N)) : list (tree + N) :=
+  flat_map (fun s => match s with inl run => map inl run | inr id => [inr id] end) l.
 
 (* set equality of lists, as mutual inclusion *)
 Definition SameSet {A : Type} (l1 l2 : list A) : Prop := forall x, In x l1 <-> In x l2.
